@@ -5,21 +5,44 @@ VERIF = os.path.dirname(os.path.dirname(os.path.abspath(__file__)))
 props = [json.loads(l) for l in open(os.path.join(VERIF, "properties.jsonl")) if l.strip()]
 
 # id -> (technique, level text, level note, design ref)
+def C(tech, text, note, ref):
+    return (tech, text, note, ref)
+
+TRUST = "Trusts TLC, the reflection-based projection (harness/absval.go, no library methods) and the Go toolchain; bounds as stated in the evidence rule."
 CHECKS = {
- "C13": ("TLA+ state machine (Collections.tla) model-checked by TLC; every model transition replayed on the six real "
-         "containers and random histories recorded from them, all judged by the trace specification CollectionsTrace.tla",
-         "Exhaustive TLC check of the ordered-set design for a pool of 4-5 ids; every (kind, contents, op) transition of the "
-         "model is executed on the real code and every recorded event (plus long random histories) must be a step of the "
-         "specification. Bounded-exhaustive for short histories, random beyond.",
-         "Trusts TLC, the reflection-based projection of container contents, and that identity = id for pool items.",
-         "DESIGN.md §4 C13"),
- "C19": ("TLA+ state machine (NatLang.tla, Set specified as a relation by its post-condition) model-checked by TLC; every "
-         "(contents, op) pair and every pair of tag-distinct lists replayed on the real NaturalLanguageValues, random "
-         "histories recorded from it, all judged by NatLangTrace.tla",
-         "Exhaustive TLC check of the ordered-multimap design for <=3 entries over 3 tags; every model transition executed on "
-         "the real code and judged by the specification; random histories of 100 calls beyond the bound.",
-         "Trusts TLC and the direct field projection of LangRefValue entries; texts are non-empty.",
-         "DESIGN.md §4 C19"),
+ "C01": C("TLA+ value model (Vocab/Values/Cases/JsonRT.tla): TLC enumerates case families and computes the normal form; real "
+          "MarshalJSON/UnmarshalJSON pairs replayed on them and on random deep values; JsonRTTrace.tla judges every event",
+          "TLC model-checks the round-trip machine (normal forms idempotent, no term lost) on the bounded universe and is the oracle "
+          "(NFItem) for every recorded round trip of the real codec: exhaustive for one- and two-property values and one level of "
+          "nesting of every Go type, random beyond.", TRUST, "DESIGN.md §4 C01"),
+ "C03": C("same model with the gob normal form GFItem; GobEncode/GobDecode, per-type and binary pairs replayed; JsonRTTrace.tla judges",
+          "As C01 for the gob/binary codec with nanoseconds and zones preserved.", TRUST, "DESIGN.md §4 C03"),
+ "C10": C("TLA+ state machine Recipients.tla model-checked (6 invariants from the property's clauses); TLC prints every transition, the "
+          "harness performs it on every addressable Go type; RecipientsTrace.tla judges recorded events incl. random larger values",
+          "Exhaustive TLC check of the de-duplication design for all cuts of <=3 entries; every transition for <=2 entries over a "
+          "14-entry pool replayed on the real Recipients() of the Go types of its class; random values beyond.", TRUST, "DESIGN.md §4 C10"),
+ "C13": C("TLA+ state machine (Collections.tla) model-checked by TLC; every model transition replayed on the six real containers and "
+          "random histories recorded from them, all judged by the trace specification CollectionsTrace.tla",
+          "Exhaustive TLC check of the ordered-set design for a pool of 4-5 ids; every (kind, contents, op) transition of the model is "
+          "executed on the real code and every recorded event (plus long random histories) must be a step of the specification.",
+          TRUST, "DESIGN.md §4 C13"),
+ "C14": C("TLA+ relation IRI.tla (component-wise Equiv = equality of normal forms, equivalence laws checked by TLC, list machine); TLC "
+          "generates the grid with class keys; all ordered pairs executed on IRI.Equals; IRITrace.tla re-judges disagreements and samples",
+          "All ordered pairs x checkScheme of a 2400 (quick) / 16800 (thorough) IRI grid compared with the model's classes; non-URL strings "
+          "for reflexivity/symmetry; IRI-list membership against the model.", TRUST, "DESIGN.md §4 C14"),
+ "C15": C("TLA+ machine CollPath.tla (join/split walk with round-trip invariants) over IRI.tla; every owner x name replayed through "
+          "IRIf/Split/OfActor/ValidCollectionIRI/Of/IRI; CollPathTrace.tla judges results parsed with net/url",
+          "Exhaustive over the generated owner space (516 owners x 8 names, nested once) and the helper cases.", TRUST, "DESIGN.md §4 C15"),
+ "C17": C("TLA+ Order.tla: strict-weak-order laws as ASSUMEs over all triples, sorting machine with termination; all pairs x Go types and "
+          "all short lists replayed on ItemOrderTimestamp / sort.Slice; OrderTrace.tla judges",
+          "Whole abstract space (17x17 pairs, lists <=4) on every object Go type in value and pointer form with zone presentations.",
+          TRUST, "DESIGN.md §4 C17"),
+ "C19": C("TLA+ state machine (NatLang.tla, Set specified as a relation by its post-condition) model-checked by TLC; every "
+          "(contents, op) pair and every pair of tag-distinct lists replayed on the real NaturalLanguageValues, random "
+          "histories recorded from it, all judged by NatLangTrace.tla",
+          "Exhaustive TLC check of the ordered-multimap design for <=3 entries over 3 tags; every model transition executed on "
+          "the real code and judged by the specification; random histories of 100 calls beyond the bound.",
+          "Trusts TLC and the direct field projection of LangRefValue entries; texts are non-empty.", "DESIGN.md §4 C19"),
 }
 NOT_YET = "check not built yet in this round (planned in DESIGN.md §4); not claimed until it runs"
 
